@@ -65,7 +65,7 @@ NO_RAISE = {
     "builtins.ord": "every call is dominated by a len(...) == 1 test or iterates the characters of a text (C01 O1.6, C11 O11.3)",
     "builtins.iter": "of texts, lists and iterators (iterables)", "builtins.range": "integer arguments", "builtins.repr": "total", "builtins.str": "total", "builtins.sum": "of integers",
     "builtins.super": "total", "builtins.type": "total", "builtins.zip": "lazy", "builtins.getattr": "with default or a known name",
-    "builtins.hasattr": "total", "builtins.bool": "total", "builtins.print": "diagnostics",
+    "builtins.hasattr": "total", "decimal.Decimal.scaleb": "of the constant Decimal(1) with a small integer exponent", "builtins.setattr": "the property setters it runs are followed by the analysis itself (escape._setattr_setters)", "builtins.bool": "total", "builtins.print": "diagnostics",
     "builtins.EnvironmentError": "constructor", "builtins.NameError": "constructor", "builtins.NotImplementedError": "constructor",
     "builtins.ValueError": "constructor", "builtins.AssertionError": "constructor", "builtins.OSError": "constructor",
     "builtins.object.__init__": "total", "builtins.Exception.__init__": "total",
@@ -116,6 +116,7 @@ ELEMENT_HINTS = {
 METHODS = {
     "decode": ("builtins.UnicodeDecodeError",),  # bytes.decode("unicode_escape") of a quoted limit such as "\x"
     "index": ("builtins.ValueError",),  # list.index
+    "quantize": ("decimal.InvalidOperation",),  # Decimal.quantize: a result of more than 28 digits (context precision)
     "parser.parse_args": ("builtins.SystemExit",), "parser.parse_intermixed_args": ("builtins.SystemExit",),
     "parser.error": ("builtins.SystemExit",),  # ArgumentParser.error
     "loader.exec_module": (ANY,),  # plugin code
@@ -322,4 +323,13 @@ def _writes_to_memory_buffer(call, func):
     if not (isinstance(stream, ast.Attribute) and isinstance(stream.value, ast.Name) and stream.value.id == "self"):
         return False
     sources = assignments.get(stream.attr, [])
-    return len(sources) == 1 and dotted(sources[0].func) in ("io.StringIO", "StringIO")
+    if len(sources) != 1:
+        return False
+    if dotted(sources[0].func) in ("io.StringIO", "StringIO"):
+        return True
+    # a sink of the module's own: a class whose write() only stores what it is given (no call at all in its body)
+    sink_name = dotted(sources[0].func)
+    sink = func.module.classes.get(sink_name) if sink_name else None
+    if sink is not None and "write" in sink.methods:
+        return not any(isinstance(node, ast.Call) for node in walk_own(sink.methods["write"].node))
+    return False
